@@ -218,9 +218,16 @@ def backends(ctx, repo):
         ifs = [x for x in fd.body if isinstance(x, ast.If)]
         ok = False
         msg = "body is not `if USE_JAX: return f_jax(...) else: return f_numpy(...)`"
-        if len(ifs) == 1 and ast.unparse(ifs[0].test) == "USE_JAX" and len(ifs[0].body) == 1 and len(ifs[0].orelse) == 1:
+        body_ = [x for x in fd.body if not (isinstance(x, ast.Expr) and isinstance(x.value, ast.Constant))]
+        other = None
+        if len(ifs) == 1 and ast.unparse(ifs[0].test) == "USE_JAX" and len(ifs[0].body) == 1:
+            if len(ifs[0].orelse) == 1:
+                other = ifs[0].orelse[0]
+            elif not ifs[0].orelse and len(body_) == 2 and body_[0] is ifs[0] and isinstance(body_[1], ast.Return):
+                other = body_[1]  # `if USE_JAX: return f_jax(...)` followed by `return f_numpy(...)`
+        if other is not None:
             problems = []
-            for branch, suffix, modname in ((ifs[0].body[0], "_jax", "_gettsim.aggregation_jax"), (ifs[0].orelse[0], "_numpy", "_gettsim.aggregation_numpy")):
+            for branch, suffix, modname in ((ifs[0].body[0], "_jax", "_gettsim.aggregation_jax"), (other, "_numpy", "_gettsim.aggregation_numpy")):
                 if not (isinstance(branch, ast.Return) and isinstance(branch.value, ast.Call) and isinstance(branch.value.func, ast.Name)):
                     problems.append("branch is not a return of a call")
                     continue
@@ -429,8 +436,29 @@ def kernel_functions(ctx, repo):
             continue
         k = name[len("grouped_"):]
         calls = [c for c in ast.walk(fd) if isinstance(c, ast.Call) and ast.unparse(c.func).split(".")[-1] == "aggregate"]
-        if not calls:
+        via_helper = []
+        for c in ast.walk(fd):
+            # a module helper that wraps aggregate(..., func=<its parameter>): the constant passed for that parameter counts
+            if isinstance(c, ast.Call) and isinstance(c.func, ast.Name) and c.func.id in an.functions and c.func.id != name:
+                h = an.functions[c.func.id]
+                hp = [a.arg for a in h.args.posonlyargs + h.args.args + h.args.kwonlyargs]
+                for hc in ast.walk(h):
+                    if isinstance(hc, ast.Call) and ast.unparse(hc.func).split(".")[-1] == "aggregate":
+                        f_ = next((kw.value for kw in hc.keywords if kw.arg == "func"), hc.args[2] if len(hc.args) > 2 else None)
+                        if isinstance(f_, ast.Name) and f_.id in hp:
+                            i_ = hp.index(f_.id)
+                            passed = c.args[i_] if i_ < len(c.args) else next((kw.value for kw in c.keywords if kw.arg == f_.id), None)
+                            via_helper.append((c, passed))
+        if not calls and not via_helper:
             raise AnalysisError(f"{name}: no aggregate call found; S-kernel needs a re-read")
+        for c, passed in via_helper:
+            fv = passed.value if isinstance(passed, ast.Constant) else None
+            want = "sum" if k == "count" else k
+            ok = fv == want
+            n += 1
+            ctx.ob("S-kernel", ok=ok, distinct=(name, c.lineno))
+            if not ok:
+                ctx.violation("S-kernel", f"{name}|func={fv}", an.loc(c) + f" {name}", f"{name} reduces with func={fv!r} instead of {want!r} (through {c.func.id})")
         # hand-written scatter reductions (ufunc.at) need an identity element per dtype - zeros are not the identity of
         # max over dates or negative numbers; the kernels delegate every reduction to numpy_groupies
         allocs = {}
